@@ -26,7 +26,7 @@ import re
 from collections.abc import Callable, Iterable
 from typing import Any
 
-from ..cfg import CFG, _Env, cfg_of
+from ..cfg import CFG, _Env
 from ..core import Ctx
 from ..exc import EscapeAnalysis, ExcModel
 from ..loader import AnalysisError, ClassInfo, FunctionInfo, Module, walk_scope
